@@ -405,6 +405,9 @@ Proof.
   rewrite (map_nth (get cr rb)) in K. rewrite (nth_error_nth _ _ _ Eb) in K. exact K.
 Qed.
 
+Lemma Forall2_map_r {A B C} (P : A -> C -> Prop) (f : B -> C) l m : Forall2 P l (map f m) -> Forall2 (fun a b => P a (f b)) l m.
+Proof. revert l. induction m as [|b m IH]; intros l F; simpl in F; inversion F; subst; constructor; auto. Qed.
+
 (* ------------------------------------------------------------------ merge + deletions + loop against the reference join *)
 Section Core.
   Variables (l r : table) (on_a on_b : list string) (how : merge_how) (sfx : string).
@@ -587,11 +590,8 @@ Section Core.
     intros Hf.
     assert (JInv PP gg on_a sfx (cols res1) res1 []) as J0.
     { split; [exact W1|]. split; [unfold dropped; cbn [filter map mem negb]; rewrite filter_true; reflexivity|].
-      unfold res0 in F1. cbn [rows] in F1. rewrite <- (map_id PP). revert F1. generalize (rows res1) as rs. intros rs F1.
-      remember (map (merge_row (cols L) (cols R) lon ron) PP) as ms eqn:Ems. revert PP Ems.
-      induction F1 as [|a b rs ms' Hab F1 IH]; intros PP0 Ems; destruct PP0 as [|p PP0]; try discriminate; cbn [map]; constructor.
-      - intros x0 Ix0. cbn [map] in Ems. inversion Ems; subst. rewrite (Hab x0 Ix0). unfold valD, coal. cbn [mem andb]. reflexivity.
-      - cbn [map] in Ems. inversion Ems; subst. apply IH. reflexivity. }
+      unfold res0 in F1. cbn [rows cols] in F1. apply Forall2_map_r in F1. eapply Forall2_weaken; [|exact F1].
+      intros a p Hap x0 Ix0. rewrite (Hap x0 Ix0). unfold valD, coal. cbn [mem andb]. reflexivity. }
     assert (NoDup common) as Nc by (apply NoDup_filter, (NoDup_cl Nout)).
     assert (forall c, In c ([] ++ common) -> In c names /\ ~ In (sapp c sfx) names) as Hn.
     { intros c Ic. cbn [app] in Ic. split; [|apply Hsfx, Ic]. apply In_set_inter in Ic. apply in_names_l. tauto. }
@@ -608,7 +608,7 @@ Section Core.
         + apply negb_true_iff, mem_false. intros Id. apply (Hdel c Id). unfold semout in Ic. apply in_app_iff in Ic.
           destruct Ic as [Ic|Ic]; [apply in_names_l, Ic|apply filter_In in Ic; apply in_names_r; tauto].
       - apply negb_true_iff, mem_false. intros Id. unfold dropped in Id. apply in_map_iff in Id. destruct Id as [c0 [E0 I0]].
-        apply filter_In in I0. destruct I0 as [I0 _]. apply in_rev in I0. rewrite rev_involutive in I0.
+        apply filter_In in I0. destruct I0 as [I0 _]. apply (proj2 (in_rev _ _)) in I0.
         apply (Hsfx c0 I0). rewrite E0. unfold semout in Ic. apply in_app_iff in Ic.
         destruct Ic as [Ic|Ic]; [apply in_names_l, Ic|apply filter_In in Ic; apply in_names_r; tauto]. }
     assert (forall c, In c (cols x) -> In c semout) as Sup.
@@ -629,9 +629,11 @@ Section Core.
             assert (same_named_key lon ron c0 = true) as T by (apply Hsn; right; exact Ib). congruence.
           * apply Nd0. unfold dropped. apply in_map_iff. exists c0. split.
             -- rewrite <- E0. replace (mem c0 (cols L)) with true; [reflexivity|]. symmetry. apply mem_In. rewrite HcL. apply in_app_iff. left. exact Il0.
-            -- apply filter_In. split; [apply in_rev; rewrite rev_involutive; apply In_set_inter; split; assumption|].
+            -- apply filter_In. split; [apply (proj1 (in_rev _ _)); apply In_set_inter; split; assumption|].
                apply negb_true_iff, mem_false, Na0.
-        + right. destruct (right_only_kept c0 Nl0 Ir0) as [_ Er]. fold ren in E0. rewrite Er in E0. subst c.
+        + right. assert (mem c0 (cols L) = false) as Mf.
+          { apply mem_false. rewrite HcL. intros I. apply in_app_iff in I. destruct I as [I|I]; [contradiction|apply (Hdel c0 I), in_names_r, Ir0]. }
+          rewrite Mf in E0. subst c.
           apply filter_In. split; [exact Ir0|]. apply negb_true_iff, mem_false, Nl0. }
     (* the rows *)
     exists (mktable semout (map (fun p => map (fun c => valD gg on_a sfx (rev common) p c) semout) PP)). split; [|split].
@@ -647,3 +649,82 @@ Section Core.
       apply map_ext_in. intros p0 I0. unfold sem_mk. apply map_ext_in. intros c Ic. apply (final_cell p0 c Nout I0 Ic).
   Qed.
 End Core.
+
+(* ------------------------------------------------------------------ _natural_join_step *)
+Lemma same_named_spec lon ron c : same_named_key lon ron c = true <-> In (c, c) (combine lon ron).
+Proof.
+  unfold same_named_key. rewrite existsb_exists. split.
+  - intros [[a b] [I E]]. cbn [fst snd] in E. apply andb_true_iff in E. destruct E as [E1 E2].
+    apply String.eqb_eq in E1. apply String.eqb_eq in E2. subst. exact I.
+  - intros I. exists (c, c). split; [exact I|]. cbn [fst snd]. rewrite String.eqb_refl. reflexivity.
+Qed.
+
+Lemma px_join_refines declared on_a on_b jt l r x :
+  width_ok l -> width_ok r ->
+  (forall c, In c on_a -> In c (cols l)) -> (forall c, In c on_b -> In c (cols r)) -> List.length on_a = List.length on_b ->
+  (forall a b, In (a, b) (combine on_a on_b) -> In a (cols r) -> a = b) ->
+  same_set declared (cols l ++ filter (fun c => negb (mem c (cols l))) (cols r)) ->
+  px_join declared on_a on_b jt l r = Some x -> refines x (sem_join true on_a on_b jt l r) /\ width_ok x.
+Proof.
+  intros Wl Wr Ha Hb Hlen Hclean Sd. unfold px_join. rewrite sem_join_as_pairs.
+  destruct (Nat.eqb (nrows l) 0 && Nat.eqb (nrows r) 0) eqn:E0.
+  - (* both sides empty *)
+    intros H. inversion H; subst x. apply andb_true_iff in E0. destruct E0 as [El Er]. apply Nat.eqb_eq in El, Er. unfold nrows in El, Er.
+    apply length_zero_nil in El. apply length_zero_nil in Er. rewrite El, Er.
+    split; [|unfold width_ok, pd_empty_frame; cbn [rows]; constructor].
+    apply refines_of_eqv. unfold pd_empty_frame. split; cbn [cols rows]; [exact Sd|].
+    destruct jt; cbn; constructor.
+  - set (common := set_inter (cols l) (cols r)). set (names := set_union (cols l) (cols r)). set (sfx := right_suffix common names).
+    assert (forall c, In c common -> ~ In (sapp c sfx) names) as Hsfx by (intros c Ic; apply right_suffix_fresh, Ic).
+    destruct on_a as [|a0 on_a'] eqn:Ea.
+    + (* empty `on`: a constant scratch key in both frames *)
+      destruct on_b as [|b0 on_b']; [|discriminate]. set (S := unused_column_name base_merge_col names).
+      pose proof (unused_column_name_fresh base_merge_col names) as FS. fold S in FS.
+      assert (~ In S (cols l)) as Sl by (intros I; apply FS, In_set_union; left; exact I).
+      assert (~ In S (cols r)) as Sr by (intros I; apply FS, In_set_union; right; exact I).
+      intros H.
+      assert (forall A (f : table -> option A) (t0 : table), (let res := clean_copy t0 in f res) = f t0) as CC by reflexivity.
+      pose proof (core_refines l r [] [] (how_of jt) sfx Hsfx Ha Hb Hclean Hlen
+                    (pd_set_scalar S vone l) (pd_set_scalar S vone r) [S] [S] [S]
+                    (fun ra => set_cell (cols l) ra S vone) (fun rb => set_cell (cols r) rb S vone)) as CR.
+      cbn zeta in H.
+      destruct (pd_merge (how_of jt) (pd_set_scalar S vone l) (pd_set_scalar S vone r) [S] [S] sfx) as [res0|] eqn:Em; cbn [obind] in H; [|discriminate].
+      unfold clean_copy, pd_reset_index in H.
+      destruct (pd_del S res0) as [res1|] eqn:Ed; cbn [obind] in H; [|discriminate].
+      destruct (fold_left _ common (Some res1)) as [res2|] eqn:Ef; cbn [obind] in H; [|discriminate]. inversion H; subst x. clear H.
+      apply CR; clear CR.
+      * unfold pd_set_scalar. cbn [cols]. apply add_end_new, Sl.
+      * unfold pd_set_scalar. cbn [cols]. apply add_end_new, Sr.
+      * reflexivity.
+      * reflexivity.
+      * intros ra c Ira Ic. unfold pd_set_scalar. cbn [cols]. rewrite (add_end_new _ _ Sl), (set_cell_new _ _ _ _ Sl).
+        apply get_app_l; [|exact Ic]. unfold width_ok in Wl. rewrite Forall_forall in Wl. apply Wl, Ira.
+      * intros rb c Irb Ic. unfold pd_set_scalar. cbn [cols]. rewrite (add_end_new _ _ Sr), (set_cell_new _ _ _ _ Sr).
+        apply get_app_l; [|exact Ic]. unfold width_ok in Wr. rewrite Forall_forall in Wr. apply Wr, Irb.
+      * intros s [<-|[]]. exact FS.
+      * intros c. rewrite same_named_spec. cbn [combine In]. split; [intros [E|[]]; inversion E; left; left; reflexivity|].
+        intros [[->|[]]|[]]. left. reflexivity.
+      * intros ra rb Ira Irb. unfold pd_set_scalar. cbn [cols key_of map]. rewrite (add_end_new _ _ Sl), (add_end_new _ _ Sr).
+        rewrite (set_cell_new _ _ _ _ Sl), (set_cell_new _ _ _ _ Sr).
+        unfold width_ok in Wl, Wr. rewrite Forall_forall in Wl, Wr.
+        rewrite (get_app_r _ _ _ _ _ (Wl ra Ira) Sl), (get_app_r _ _ _ _ _ (Wr rb Irb) Sr). reflexivity.
+      * rewrite Em. cbn [obind fold_left]. rewrite Ed. cbn [obind]. exact Ef.
+    + (* keyed join *)
+      rewrite <- Ea in *. assert (on_a <> []) as Na by (rewrite Ea; discriminate). clear Ea a0 on_a'.
+      assert (forall (A : Type) (x1 x2 : A), match on_a with [] => x1 | _ :: _ => x2 end = x2) as Mo by (intros; destruct on_a; [congruence|reflexivity]).
+      rewrite (Mo _ (Some (unused_column_name base_merge_col names)) None). cbn zeta. intros H.
+      destruct (pd_merge (how_of jt) l r on_a on_b sfx) as [res0|] eqn:Em; cbn [obind] in H; [|discriminate].
+      unfold clean_copy, pd_reset_index in H.
+      destruct (fold_left _ common (Some res0)) as [res2|] eqn:Ef; cbn [obind] in H; [|discriminate]. inversion H; subst x. clear H.
+      apply (core_refines l r on_a on_b (how_of jt) sfx Hsfx Ha Hb Hclean Hlen l r on_a on_b [] (fun ra => ra) (fun rb => rb)).
+      * rewrite app_nil_r. reflexivity.
+      * rewrite app_nil_r. reflexivity.
+      * rewrite map_id. reflexivity.
+      * rewrite map_id. reflexivity.
+      * reflexivity.
+      * reflexivity.
+      * intros s [].
+      * intros c. rewrite same_named_spec. cbn [In]. tauto.
+      * reflexivity.
+      * rewrite Em. cbn [obind fold_left]. exact Ef.
+Qed.
